@@ -67,9 +67,12 @@ IMPORTS = "From Coq Require Import NArith List.\nFrom DvcData Require Import Bas
 
 ADD, MODIFY, RENAME, DELETE, UNCHANGED, UNKNOWN = "add", "modify", "rename", "delete", "unchanged", "unknown"
 TYP_CODE = {ADD: 1, MODIFY: 2, RENAME: 3, DELETE: 4, UNCHANGED: 5, UNKNOWN: 6}
-META_FIELDS = ("isdir", "size", "nfiles", "isexec", "md5", "mtime", "etag")
+META_FIELDS = ("isdir", "size", "nfiles", "isexec", "md5", "mtime", "etag", "version_id", "checksum", "inode")
 META_DEFAULT = {"isdir": False, "size": None, "nfiles": None, "isexec": False, "md5": None, "mtime": None,
-                "etag": None}
+                "etag": None, "version_id": None, "checksum": None, "inode": None}
+# fields with eq=False: never part of a comparison
+META_NOEQ_DEFAULT = {"remote": None, "is_link": False, "destination": None, "nlink": 1}
+META_EXTRA = ("version_id", "checksum", "inode", "remote", "is_link", "destination", "nlink")
 CMP_KINDS = [None, "ie", "etag", "md5"]      # the cmp selector of Model/IndexDiff.v: cmp_of_sel
 
 NAMES = ["a", "b", "ab", "c", "é", "B"]
@@ -115,7 +118,8 @@ def mk_meta(m):
 
     if m is None:
         return None
-    return Meta(**{k: (float(v) if k == "mtime" and v is not None else v) for k, v in m.items()})
+    return Meta(**{k: (float(v) if k == "mtime" and v is not None else v) for k, v in m.items()
+                   if not k.startswith("_")})
 
 
 def mk_hash(h):
@@ -123,13 +127,14 @@ def mk_hash(h):
 
     if h is None:
         return None
-    return HashInfo(h[0], h[1])
+    return HashInfo(h[0], h[1], *(h[2:3]))      # optional obj_name label (eq=False)
 
 
 def mk_entry(k, m, h):
     from dvc_data.index import DataIndexEntry
 
-    return DataIndexEntry(key=tuple(k), meta=mk_meta(m), hash_info=mk_hash(h))
+    loaded = m.get("_loaded") if m else None      # the `loaded` flag rides in the meta dict of a case
+    return DataIndexEntry(key=tuple(k), meta=mk_meta(m), hash_info=mk_hash(h), loaded=loaded)
 
 
 def build_index(entries):
@@ -222,7 +227,7 @@ def build_lazy(spec):
 
     odb = get_odb()
     raw, oid = tree_listing(spec["files"])
-    if not odb.exists(oid):
+    if not spec.get("missing") and not odb.exists(oid):
         odb.add_bytes(oid, raw)
     mount = tuple(spec["mount"])
     idx = DataIndex()
@@ -254,15 +259,34 @@ def lazy_twin(spec):
     return out + [list(e) for e in spec.get("extra", [])]
 
 
+def view_pass(hide, k):
+    return not any(n in hide for n in k)
+
+
+def build_view(spec):
+    """view(index, filter_fn) over the FULL index spec["full"]; the case's entries are the visible twin"""
+    from dvc_data.index import view
+
+    hide = set(spec["view"])
+    return view(build_index(spec["full"]), lambda k: view_pass(hide, k))
+
+
+def view_twin(full, hide):
+    hide = set(hide)
+    return [e for e in full if not e[0] or view_pass(hide, e[0])]
+
+
 def build_side(entries, hist):
     if entries is None or hist is None:
         return build_index(entries), None
+    if isinstance(hist, dict) and "view" in hist:
+        return build_view(hist), None
     if isinstance(hist, dict):
         return build_lazy(hist), None
     return apply_hist(hist)
 
 
-def real_diff(old_entries, new_entries, code, roots=None, hist=None):
+def real_diff(old_entries, new_entries, code, roots=None, hist=None, extra=None):
     """-> ("ok", [ (typ, old side, new side) ]) | ("err", code); hist = {"old": ops|None, "new": ops|None}"""
     from dvc_data.index.diff import diff
 
@@ -275,7 +299,7 @@ def real_diff(old_entries, new_entries, code, roots=None, hist=None):
         new, pn = build_side(new_entries, hist.get("new"))
         out = list(diff(old, new, with_renames=f["with_renames"], with_unchanged=f["with_unchanged"],
                         hash_only=f["hash_only"], meta_only=f["meta_only"],
-                        meta_cmp_key=CMP_FN[f["cmp"]], shallow=f["shallow"],
+                        meta_cmp_key=CMP_FN[f["cmp"]], shallow=f["shallow"], **(extra or {}),
                         **({} if roots is None else {"roots": [tuple(r) for r in roots]})))
         res = ("ok", [(c.typ, obs_side(c.old), obs_side(c.new)) for c in out])
     except Exception as exc:  # noqa: BLE001
@@ -350,7 +374,13 @@ def c_optbytes(s):
 def c_meta(m):
     if m is None:
         return "None"
-    d = {**META_DEFAULT, **m}
+    d = {**META_DEFAULT, **META_NOEQ_DEFAULT, **m}
+    if any(f in m for f in META_EXTRA):
+        return "(Some (MF %s %s %s %s %s %s %s %s %s %s %s %s %s %s))" % (
+            cbool(d["isdir"]), copt(d["size"], cN), copt(d["nfiles"], cN), cbool(d["isexec"]),
+            c_optbytes(d["version_id"]), c_optbytes(d["etag"]), c_optbytes(d["checksum"]), c_optbytes(d["md5"]),
+            copt(d["inode"], cN), copt(d["mtime"], cN), c_optbytes(d["remote"]), cbool(d["is_link"]),
+            c_optbytes(d["destination"]), cN(d["nlink"]))
     return "(Some (M %s %s %s %s %s %s %s))" % (cbool(d["isdir"]), copt(d["size"], cN), copt(d["nfiles"], cN),
                                                cbool(d["isexec"]), c_optbytes(d["md5"]), copt(d["mtime"], cN),
                                                c_optbytes(d["etag"]))
@@ -359,6 +389,8 @@ def c_meta(m):
 def c_hash(h):
     if h is None:
         return "None"
+    if len(h) > 2:
+        return "(Some (H3 %s %s %s))" % (c_optbytes(h[0]), c_optbytes(h[1]), c_optbytes(h[2]))
     return "(Some (H %s %s))" % (c_optbytes(h[0]), c_optbytes(h[1]))
 
 
@@ -367,6 +399,8 @@ def c_key(k):
 
 
 def c_entry(m, h):
+    if m and "_loaded" in m:
+        return "(EL %s %s (Some %s))" % (c_meta(m), c_hash(h), cbool(m["_loaded"]))
     return "(E %s %s)" % (c_meta(m), c_hash(h))
 
 
@@ -416,7 +450,7 @@ def cmp_hash(a, b):
         return DELETE
     if tb and not ta:
         return ADD
-    return UNCHANGED if tuple(a) == tuple(b) else MODIFY
+    return UNCHANGED if tuple(a[:2]) == tuple(b[:2]) else MODIFY      # (name, value); obj_name is a label
 
 
 def cmp_meta(a, b, use_cmp):
@@ -491,7 +525,7 @@ def is_wf(entries):
 def is_consistent(old_entries, new_entries):
     o, n = as_dict(old_entries), as_dict(new_entries)
     for d, (m, h) in o.items():
-        if d in n and truthy(h) and h[1].endswith(".dir") and tuple(n[d][1] or ()) == tuple(h):
+        if d in n and truthy(h) and h[1].endswith(".dir") and tuple((n[d][1] or ())[:2]) == tuple(h[:2]):
             for k in set(o) | set(n):
                 if len(k) > len(d) and k[: len(d)] == d:
                     if cmp_hash(o.get(k, (None, None))[1], n.get(k, (None, None))[1]) != UNCHANGED:
@@ -576,7 +610,15 @@ def oracle(old_entries, new_entries, code, res, hist=None):
             extra = got - ref
             mk = {(a if a is not None else b) for _, a, b in missing}
             ek = {(a if a is not None else b) for _, a, b in extra}
+            combo = False
             if f["meta_only"] and f["hash_only"] and (mk - ek):
+                # the label of /repo bc9d16e is used only when the COMBINATION hides the keys: the same diff with
+                # meta_only alone is exact
+                r2 = real_diff(old_entries, new_entries, code & ~4 & ~1, hist=hist)
+                if r2[0] == "ok":
+                    got2 = collections.Counter((c[0], c[1] and c[1]["key"], c[2] and c[2]["key"]) for c in r2[1])
+                    combo = got2 == flat_reference(old_entries, new_entries, opt_flags(code & ~4))
+            if combo:
                 sig = "C08:hidden-change:meta_only+hash_only"
             elif mk - ek:
                 sig = "C08:flat-mismatch:key-missing"
@@ -926,7 +968,8 @@ def disk_sanitize(entries):
     out = []
     for k, m, h in entries:
         if m is not None:
-            m = {f: v for f, v in m.items() if f != "mtime"}
+            # Meta.to_dict keeps neither mtime nor inode nor empty strings (nor the eq=False link fields)
+            m = {f: v for f, v in m.items() if f not in ("mtime", "inode", "is_link", "destination", "nlink") and v != ""}
         if not truthy(h):
             h = None
         if m is not None and all(m.get(f, META_DEFAULT[f]) == META_DEFAULT[f] for f in META_FIELDS) and h is None:
@@ -1153,6 +1196,215 @@ def gen_lazy_roots(ctx, bundle):
             "codes": sorted({c & ~32 for c in sample_codes(ctx, 3)}), "stream": "roots"}
 
 
+# --------------------------------------------------------------------------------------
+# input-space audit (tools/COVERAGE_AUDIT.md): fixed cases that run in EVERY run, judged by the same oracle
+
+AUDIT_CODES = [0, 1, 2, 3, 4, 6, 8, 12, 18, 33, 34, 72, 13]
+NFC, NFD = "café.txt", "café.txt"
+ODD_NAMES = ["we\\ird.txt", "a b", ".hid", "Ж", "漢", "\U0001f600", NFC, NFD, "x.dir", "imgs_raw", "imgs.bak",
+             "q", "L" * 200, "data"]
+
+
+def _f(size, h, **meta):
+    return [{"size": size, **meta}, ["md5", h]]
+
+
+def _dirh(children):
+    """a hash-consistent directory hash: digest of the hashed descendants"""
+    return ["md5", hashlib.md5(repr(sorted(children)).encode()).hexdigest()[:8] + ".dir"]  # noqa: S324
+
+
+def audit_pairs():
+    """[(dims, old entries, new entries)] - deterministic"""
+    out = []
+    D = {"isdir": True}
+    # names: odd names, NFC/NFD twins, prefix siblings (one a directory), case twins (directory vs file), .dir suffix
+    old = [[["n"], D, None]] + [[["n", nm], *_f(1, "h%d" % (i % 6 + 1))] for i, nm in enumerate(ODD_NAMES)]
+    old += [[["n", "imgs"], D, None], [["n", "imgs", "1.png"], *_f(2, "h2")],
+            [["n", "Data"], D, None], [["n", "Data", "f"], *_f(2, "h3")],
+            [["n", "y.dir"], D, None], [["n", "y.dir", "in"], *_f(2, "h4")]]
+    new = [e for e in copy.deepcopy(old) if e[0][-1] not in ("a b", NFD, "imgs.bak", "q")]
+    for e in new:
+        if e[0][-1] in (NFC, "imgs_raw", "L" * 200, "x.dir", "data"):
+            e[2] = ["md5", "h6" if e[2][1] != "h6" else "h5"]
+    new += [[["n", "imgs", "2.png"], *_f(2, "h2")], [["n", "Q"], *_f(1, "h4")], [["n", "y.dir", "in2"], *_f(2, "h4")]]
+    out.append((["names:odd", "names:nfc-nfd-twins", "names:prefix-siblings", "names:case-twins", "names:dot-dir",
+                 "names:len-1-and-200", "shape:dup-content"], old, new))
+    # shapes: empty directories, a directory of empty directories, depth 5, intermediate directories only
+    old = [[["e"], D, None], [["ee"], D, None], [["ee", "s1"], D, None], [["ee", "s2"], D, None],
+           [["p", "q", "r", "s", "t"], *_f(1, "h1")], [["p", "q"], D, None],
+           [["one"], D, None], [["one", "f"], *_f(0, "h0")]]
+    new = [[["ee"], D, None], [["ee", "s1"], D, None], [["ee", "s3"], D, None],
+           [["p", "q", "r", "s", "t"], *_f(1, "h2")], [["p", "q", "r", "s", "u"], *_f(1, "h1")], [["p"], D, None],
+           [["one"], D, None], [["one", "f"], *_f(0, "h0")], [["e2"], D, None]]
+    out.append((["shape:empty-dir", "shape:dir-of-empty-dirs", "shape:depth>=5", "shape:intermediate-dirs-only",
+                 "shape:one-file-dir", "shape:zero-length-file"], old, new))
+    # a key that is a file on one side and a directory with children on the other: depth 0 and depth 2
+    old = [[["k"], *_f(1, "h1")], [["a", "b"], D, None], [["a", "b", "k"], D, _dirh([("c", "h2")])],
+           [["a", "b", "k", "c"], *_f(1, "h2")]]
+    new = [[["k"], D, None], [["k", "c"], *_f(1, "h1")], [["k", "d", "e"], *_f(1, "h3")], [["a", "b"], D, None],
+           [["a", "b", "k"], *_f(1, "h2")]]
+    out.append((["shape:file-vs-dir-depth0", "shape:file-vs-dir-depth2"], old, new))
+    # explicit root entry on one side only / on both with different hashes; single-entry indexes; None
+    kids = [[["f"], *_f(1, "h1")], [["d", "g"], *_f(1, "h2")]]
+    out.append((["shape:root-entry-one-side"], [[[], D, None]] + kids, copy.deepcopy(kids)))
+    out.append((["shape:root-entry-one-side"], copy.deepcopy(kids), [[[], D, _dirh([("f", "h1"), ("d/g", "h2")])]] + kids))
+    out.append((["shape:root-entry-both"], [[[], D, _dirh([("f", "h1")])], [["f"], *_f(1, "h1")]],
+                [[[], D, _dirh([("f", "h2")])], [["f"], *_f(1, "h2")]]))
+    out.append((["shape:single-entry"], [[["only"], *_f(1, "h1")]], [[["only"], *_f(2, "h1")]]))
+    out.append((["shape:single-entry", "shape:root-file-entry"], [[[], *_f(1, "h1")]], [[[], *_f(1, "h2")]]))
+    out.append((["shape:none-old", "shape:single-entry"], None, [[["only"], *_f(1, "h1")]]))
+    out.append((["shape:none-new"], [[["d"], D, None], [["d", "x"], *_f(1, "h1")]], None))
+    out.append((["shape:empty-index"], [], [[["d", "x"], *_f(1, "h1")]]))
+    # identical content in one directory and across directories, moved around (rename candidates with duplicates)
+    old = [[["a", "1"], *_f(1, "h1")], [["a", "2"], *_f(1, "h1")], [["b", "3"], *_f(1, "h1")], [["b", "4"], *_f(1, "h2")]]
+    new = [[["a", "1"], *_f(1, "h1")], [["c", "2"], *_f(1, "h1")], [["c", "3"], *_f(1, "h1")], [["c", "5"], *_f(1, "h1")],
+           [["b", "6"], *_f(1, "h2")]]
+    out.append((["shape:dup-content", "renames:duplicate-hashes"], old, new))
+    # entries: every optional Meta field present / absent / zero; eq=False fields; hash absent / present; obj_name; loaded
+    fields = [("size", 0, 5), ("nfiles", 0, 3), ("version_id", "", "v1"), ("etag", "", "e1"), ("checksum", "", "c1"),
+              ("md5", "", "m1"), ("inode", 0, 7), ("mtime", 0, 9)]
+    old, new = [], []
+    for i, (fld, zero, val) in enumerate(fields):
+        old += [[["m", fld, "absent-zero"], {}, ["md5", "h1"]], [["m", fld, "zero-val"], {fld: zero}, ["md5", "h1"]],
+                [["m", fld, "same"], {fld: val}, ["md5", "h1"]], [["m", fld, "nohash"], {fld: val}, None]]
+        new += [[["m", fld, "absent-zero"], {fld: zero}, ["md5", "h1"]], [["m", fld, "zero-val"], {fld: val}, ["md5", "h1"]],
+                [["m", fld, "same"], {fld: val}, ["md5", "h1"]], [["m", fld, "nohash"], {fld: zero}, None]]
+    old += [[["m", "isexec"], {"isexec": False}, ["md5", "h1"]], [["m", "noeq"], {"size": 1, "remote": "r1", "nlink": 2}, ["md5", "h1"]],
+            [["m", "link"], {"size": 1, "is_link": True, "destination": "x"}, None],
+            [["m", "objname"], {"size": 1}, ["md5", "h1", "label-a"]], [["m", "loaded"], {"size": 1, "_loaded": True}, ["md5", "h1"]],
+            [["m", "hash-appears"], {"size": 1}, None], [["m", "meta-appears"], None, ["md5", "h1"]],
+            [["m", "alg"], {"size": 1}, ["md5", "h1"]]]
+    new += [[["m", "isexec"], {"isexec": True}, ["md5", "h1"]], [["m", "noeq"], {"size": 1, "remote": "r2", "nlink": 5}, ["md5", "h1"]],
+            [["m", "link"], {"size": 1, "is_link": False, "destination": "y"}, None],
+            [["m", "objname"], {"size": 1}, ["md5", "h1", "label-b"]], [["m", "loaded"], {"size": 1, "_loaded": False}, ["md5", "h1"]],
+            [["m", "hash-appears"], {"size": 1}, ["md5", "h1"]], [["m", "meta-appears"], {"size": 1}, ["md5", "h1"]],
+            [["m", "alg"], {"size": 1}, ["sha256", "h1"]]]
+    out.append((["entry:meta-field-absent-zero-value", "entry:eq-false-fields", "entry:obj_name", "entry:loaded-flag",
+                 "entry:hash-absent-vs-present", "entry:same-value-two-algorithms"], old, new))
+    # an unchanged hashed directory (shortcut) next to changed ones, hashed inside hashed
+    sub = [("x", "h1")]
+    old = [[["u"], D, _dirh([("s/x", "h1"), ("y", "h2")])], [["u", "s"], D, _dirh(sub)], [["u", "s", "x"], *_f(1, "h1")],
+           [["u", "y"], *_f(1, "h2")], [["w"], D, _dirh([("z", "h1")])], [["w", "z"], *_f(1, "h1")]]
+    new = [[["u"], D, _dirh([("s/x", "h1"), ("y", "h2")])], [["u", "s"], D, _dirh(sub)], [["u", "s", "x"], *_f(7, "h1")],
+           [["u", "y"], *_f(1, "h2", isexec=True)], [["w"], D, _dirh([("z", "h3")])], [["w", "z"], *_f(1, "h3")]]
+    out.append((["shape:unchanged-hashed-dir-with-meta-change-below", "shape:nested-hashed-dirs"], old, new))
+    return out
+
+
+def audit_bundles(ctx):
+    """the fixed audit cases x back ends (memory / SQLite commit+reopen / view on either side) x AUDIT_CODES"""
+    bundles = []
+    for i, (dims, old, new) in enumerate(audit_pairs()):
+        assert is_wf(old) and is_wf(new) and is_consistent(old, new) and is_consistent(new, old), dims
+        bundles.append({"old": old, "new": new, "codes": AUDIT_CODES, "stream": "audit", "dims": dims + ["backend:memory"]})
+        # SQLite: old side set + commit + reopen, new side set in reverse order without reopening
+        o2 = disk_sanitize(old) if old is not None else None
+        n2 = disk_sanitize(new) if new is not None else None
+        if is_wf(o2) and is_wf(n2) and is_consistent(o2, n2) and is_consistent(n2, o2):
+            hist = {"old": None if o2 is None else [["set", k, m, h] for k, m, h in o2] + [["reopen"]],
+                    "new": None if n2 is None else [["set", k, m, h] for k, m, h in reversed(n2)] + [["commit"]]}
+            bundles.append({"old": o2, "new": n2, "codes": [2, 5], "stream": "audit", "hist": hist,
+                            "dims": dims + ["backend:sqlite-commit-reopen"]})
+        # views: hide one top-level name on the old side / a deeper name on the new side
+        if old is not None and new is not None and i in (0, 1, 2, 6, 11, 12):
+            tops = sorted({e[0][0] for e in old + new if e[0]})
+            deep = sorted({e[0][-1] for e in old + new if len(e[0]) >= 2})
+            for side, hide in (("old", tops[:1]), ("new", deep[:1])):
+                full = old if side == "old" else new
+                tw = view_twin(full, hide)
+                o3, n3 = (tw, new) if side == "old" else (old, tw)
+                if is_wf(o3) and is_wf(n3) and is_consistent(o3, n3) and is_consistent(n3, o3):
+                    bundles.append({"old": o3, "new": n3, "codes": [0, 2, 3, 6, 34], "stream": "audit",
+                                    "hist": {side: {"view": hide, "full": full}},
+                                    "dims": dims + ["backend:view-" + side]})
+    return bundles
+
+
+def audit_extras(ctx):
+    """dimensions outside the model, oracle only: with_unknown / a non-default callback do not change the result of
+    a loadable pair; a lazily loaded directory whose object is MISSING"""
+    from fsspec.callbacks import Callback
+
+    n = 0
+    for dims, old, new in audit_pairs()[:6]:
+        for code in (0, 2, 5):
+            base = real_diff(old, new, code)
+            for label, extra in (("with_unknown", {"with_unknown": True}), ("callback", {"callback": Callback()})):
+                alt = real_diff(old, new, code, extra=extra)
+                n += 1
+                ctx.count("flag:" + label)
+                if base[0] != alt[0] or (base[0] == "ok" and canon(base[1]) != canon(alt[1])):
+                    ctx.oracle_fail(f"C08:{label}-changes-result", f"diff(..., {label}) differs from the plain diff",
+                                    {"old": old, "new": new, "code": code, "stream": "audit", "extra": label})
+    # the object of a lazily loaded directory is missing: the index KNOWS only the directory entry.  Without
+    # with_unknown the result is the flat reference over the known entries; with it every key below the unloadable
+    # directory (coming from the other side) is reported exactly once as UNKNOWN, everything else as before
+    for mount in ([], ["d"]):
+        spec = {"mount": mount, "files": [[["gone"], "0" * 32, None, False]], "extra": [], "missing": True}
+        known = [[mount, {"isdir": True}, ["md5", tree_listing(spec["files"])[1]]]]
+        other = [[mount, {"isdir": True}, None], [mount + ["f"], *_f(1, "h1")], [mount + ["s", "g"], *_f(1, "h2")]]
+        for side in ("old", "new"):
+            o, nw = (known, other) if side == "old" else (other, known)
+            for code in (0, 2, 4):
+                hist = {side: spec}
+                res = real_diff(o, nw, code, hist=hist)
+                n += 1
+                ctx.count("lazy:object-missing")
+                case = {"old": o, "new": nw, "code": code, "stream": "audit", "hist": hist}
+                ctx.case(case, True)
+                for sig, what in oracle(o, nw, code, res, hist=hist):
+                    ctx.oracle_fail(sig + ":object-missing", what, case)
+                resu = real_diff(o, nw, code, hist=hist, extra={"with_unknown": True})
+                if resu[0] != "ok":
+                    ctx.oracle_fail("C08:unexpected-exception:" + resu[2], "with_unknown diff raised", case)
+                    continue
+                below = collections.Counter(tuple(k) for k, _, _ in other if len(k) > len(mount))
+                unk = collections.Counter(change_key(c) for c in resu[1] if c[0] == UNKNOWN)
+                rest = [c for c in resu[1] if c[0] != UNKNOWN]
+                want_rest = [c for c in (res[1] if res[0] == "ok" else []) if tuple(change_key(c)) not in below]
+                if unk != below or canon(rest) != canon(want_rest):
+                    ctx.oracle_fail("C08:with_unknown:object-missing",
+                                    f"keys below the unloadable directory must be UNKNOWN exactly once: got {sorted(unk, key=repr)}"
+                                    f" want {sorted(below, key=repr)}", case)
+    return n
+
+
+def input_dimensions(bundles):
+    dims = collections.Counter()
+    for b in bundles:
+        for d in b.get("dims", []):
+            dims[d] += 1
+        ents = (b["old"] or []) + (b["new"] or [])
+        depth = max([len(e[0]) for e in ents] + [0])
+        dims["depth:%d" % min(depth, 5)] += 1
+        if b["old"] is None or b["new"] is None:
+            dims["side:None"] += 1
+        if any(not e[0] for e in ents):
+            dims["shape:root-key-entry"] += 1
+        if len(b["old"] or []) == 1 or len(b["new"] or []) == 1:
+            dims["shape:single-entry-side"] += 1
+        ok, nk = {tuple(e[0]): e for e in b["old"] or []}, {tuple(e[0]): e for e in b["new"] or []}
+        if any(k in nk and bool((ok[k][1] or {}).get("isdir")) != bool((nk[k][1] or {}).get("isdir")) for k in ok):
+            dims["shape:file-vs-dir-same-key"] += 1
+        h = b.get("hist") or {}
+        for side in ("old", "new"):
+            v = h.get(side)
+            dims["backend:" + ("memory" if v is None else "sqlite-history" if isinstance(v, list)
+                               else "view" if "view" in v else "lazy-object-storage")] += 1
+        for c in b["codes"]:
+            f = opt_flags(c)
+            for name in ("with_renames", "with_unchanged", "hash_only", "meta_only", "shallow"):
+                if f[name]:
+                    dims["flag:" + name] += 1
+            dims["flag:meta_cmp_key=" + str(f["cmp"])] += 1
+            on = [n for n in ("with_renames", "with_unchanged", "hash_only", "meta_only", "shallow") if f[n]]
+            for i, a in enumerate(on):
+                for bb in on[i + 1:]:
+                    dims["flags:%s+%s" % (a, bb)] += 1
+    return dict(sorted(dims.items()))
+
+
 def corpus_cases():
     d = os.path.join(VERIF, "corpus", "C08")
     out = []
@@ -1170,7 +1422,7 @@ def judge(ctx, case):
     """run one (old, new, codes) bundle on the implementation; oracle; returns the Coq item"""
     old, new, codes = case["old"], case["new"], case["codes"]
     hist = case.get("hist")
-    wf = case["stream"] in ("wf", "disk", "lazy")
+    wf = case["stream"] in ("wf", "disk", "lazy", "audit")
     expected = []
     for code in codes:
         res = real_diff(old, new, code, hist=hist)
@@ -1212,13 +1464,14 @@ def run(ctx):
     _DISK["dir"] = ctx.fresh("disk")
     run_deciders(ctx)
 
-    bundles = []
+    bundles = audit_bundles(ctx)
+    ctx.count("stream:audit", len(bundles))
     for c in corpus_cases():
         bundles.append(c)
         ctx.count("stream:corpus")
-    n_pairs = ctx.n(160, 3000)
+    n_pairs = ctx.n(130, 3000)
     n_codes = ctx.n(5, 12)
-    n_bad = ctx.n(60, 700)
+    n_bad = ctx.n(40, 700)
     wf_pairs = []
     attempts = 0
     while len(wf_pairs) < n_pairs and attempts < n_pairs * 3:
@@ -1240,7 +1493,7 @@ def run(ctx):
         bundles.append({"old": old, "new": new, "codes": sample_codes(ctx, max(3, n_codes // 2)), "stream": "malformed"})
 
     # SQLite-backed sides built through histories (the model index is the FINAL key -> entry map)
-    n_disk = ctx.n(30, 300)
+    n_disk = ctx.n(24, 300)
     for old, new in wf_pairs[:n_disk]:
         if old is None and new is None:
             continue
@@ -1262,17 +1515,24 @@ def run(ctx):
 
     # lazily loaded directory entries (object storage in the storage map), mounted at the root key or below
     lazy_main = []
-    for _ in range(ctx.n(26, 250)):
+    for _ in range(ctx.n(22, 250)):
         bs = gen_lazy_bundles(ctx, max(3, n_codes // 2))
         bundles += bs
         lazy_main += bs[:1]
 
     items = [it for it in (judge(ctx, b) for b in bundles) if it is not None]
+    n_extra = audit_extras(ctx)
+    dims = input_dimensions(bundles)
+    dims["flag:with_unknown / callback (oracle only)"] = n_extra
+    ctx.extra["input_dimensions"] = dims
     ctx.obligation("oracle:diff", not any(v.kind == "oracle" for v in ctx.violations),
                    f"{sum(len(b['codes']) for b in bundles if b['stream'] == 'wf')} real diffs judged by the flat "
                    "dictionary oracle (+ swap, no-hiding, rename rules, key uniqueness)")
+    # the (large) audit items come first: deal them round-robin over the shards so no coqc file gets them all
+    ns = max(1, -(-len(items) // 30))
+    items = [x for j in range(ns) for x in items[j::ns]]
     ctx.correspond("diff", IMPORTS, "option index * option index * list N",
-                   "fun c => run_diffs (fst (fst c)) (snd (fst c)) (snd c)", items, shard=60)
+                   "fun c => run_diffs (fst (fst c)) (snd (fst c)) (snd c)", items, shard=30)
 
     # roots other than [()]
     ritems = []
@@ -1285,6 +1545,14 @@ def run(ctx):
         rcase = {"old": old, "new": new, "roots": roots, "codes": sample_codes(ctx, max(3, n_codes // 2)),
                  "stream": "roots"}
         ritems.append(judge_roots(ctx, rcase))
+    for dims, aold, anew in audit_pairs()[:3]:
+        ents = (aold or []) + (anew or [])
+        top = sorted({tuple(e[0][:1]) for e in ents if e[0]})
+        deep = sorted({tuple(e[0][:2]) for e in ents if len(e[0]) >= 2})
+        for roots in ([list(top[0])], [list(deep[0]), list(deep[-1])], [list(top[0]), list(deep[0])]):
+            ctx.count("roots:audit")
+            ritems.append(judge_roots(ctx, {"old": aold, "new": anew, "roots": roots, "codes": [0, 2, 3, 6],
+                                            "stream": "roots"}))
     for b in lazy_main[: ctx.n(15, 200)]:
         rcase = gen_lazy_roots(ctx, b)
         if rcase:
